@@ -82,6 +82,22 @@ def judge(ctx, rng, curve, secret, g, klass, forged, chain_raw):
     ctx.count('hash_calls')
     if got_hash != want_hash:
         ctx.violation('C23|hash-differs|' + cn, '%s vs %s' % (got_hash, want_hash), case)
+    # a group derived from an already signed and hashed one is signed and hashed on its own bytes
+    if klass == 'manager' and curve != b'BL':
+        extra = GO.content(rng, 'transaction')
+        try:
+            derived = signed.operation(extra).sign()
+            dsig = derived.signature
+            dkinds = [k for k in B.KINDS if dsig.startswith(k[0]) and len(dsig) == k[1]]
+            draw = B.decode_check(dsig)[len(dkinds[0][2]):]
+            dforged = OB.encode_group({'branch': g['branch'], 'contents': g['contents'] + [extra]})
+            ctx.count('derived_groups')
+            if not E.verify(curve, key.public_point, draw, b'\x03' + dforged):
+                ctx.violation('C23|derived-group-signature-does-not-verify|' + cn, 'sig=%s' % dsig, case)
+            elif derived.hash() != B.encode(E.blake2b_256(dforged + draw), 'o'):
+                ctx.violation('C23|derived-group-hash-differs|' + cn, '%s vs %s' % (derived.hash(), B.encode(E.blake2b_256(dforged + draw), 'o')), case)
+        except Exception as e:
+            ctx.violation('C23|derived-group-raises|' + type(e).__name__, repr(e)[:200], case)
     if len(ctx.samples) < 4:
         ctx.samples.append({'curve': cn, 'class': klass, 'signature': sig, 'hash': got_hash, 'contents': len(g['contents'])})
 
